@@ -169,6 +169,9 @@ func equals(t types.Type, x, y value) bool {
 		return x.eq(t, y)
 	case unsafe.Pointer:
 		return x == y.(unsafe.Pointer)
+	case rtype:
+		yr, ok := y.(rtype)
+		return ok && types.Identical(x.t, yr.t)
 	}
 
 	// Since map, func and slice don't support comparison, this
